@@ -15,6 +15,9 @@ def build_jobs(tier, seed):
     jobs = [J(H['safetycheck'], dict(P, checks=2 if tier == 'quick' else 3))]
     jobs += img.simple_jobs(J, H, PROPS, k, tier, gpt='all')
     jobs.append(J(H['vhdx'], dict(P, cuts=k, sigs='sym'), split_depth=14))
+    jobs.append(J(H['vmdk-text'], dict(P)))
+    jobs += img.vmdk_jobs(J, H, PROPS, tier,
+                          {'hdr', 'desc1', 'desc2', 'footer'}, k=k)
     return jobs
 
 
